@@ -311,7 +311,8 @@ def decide(v, traces, infos, label):
     for rnd in range(12):
         if not pending:
             break
-        rej, res = tlc.tv("C17", "FreshTrace", pending, heap="8g", timeout=900)
+        rej, res = tv_checked(pending, heap="8g", timeout=1800)
+        say(f"[C17]   TV round {rnd + 1}: {len(pending)} traces, {len(rej)} rejected, {res.distinct} states")
         v.extra["tv_states"] = v.extra.get("tv_states", 0) + res.distinct
         by_id = {t["id"]: t for t in pending}
         again, new_exc = [], set()
@@ -350,6 +351,15 @@ def decide(v, traces, infos, label):
     say(f"[C17] {label}: {total} histories decided by TLC ({v.timer.s()}s)")
 
 
+def tv_checked(traces, **kw):
+    """tlc.tv plus the demand that TLC really finished the batch without any error (an aborted run prints no REJ line at all)."""
+    rej, res = tlc.tv("C17", "FreshTrace", traces, **kw)
+    errs = [l for l in res.out.splitlines() if "Error" in l or "Exception" in l]
+    if not res.no_error or errs or res.distinct < len(traces):
+        raise Machinery(f"trace validation did not run cleanly ({len(traces)} traces, {res.distinct} states): {errs[:3]}\n" + "\n".join(res.out.splitlines()[-60:]))
+    return rej, res
+
+
 # ------------------------------------------------------------------------------------------------ canaries
 def T_import():
     return {"ev": "Import", "n": 0}
@@ -380,7 +390,7 @@ def canary(v):
     mutate("canary-bad-missing-field", lambda t: t[7]["f"].pop("filler"))                       # an executor that skips a field is rejected too
     mutate("canary-bad-no-import", lambda t: t.pop(5))
     traces = [{"id": k, "ev": e} for k, e in cases.items()]
-    rej, _ = tlc.tv("C17", "FreshTrace", traces)
+    rej, _ = tv_checked(traces)
     want = set(cases) - {"canary-good"}
     if set(rej) != want:
         raise Machinery(f"canary failed: rejected {sorted(rej)}, expected exactly {sorted(want)}")
@@ -402,7 +412,7 @@ def canary_e2e(v, healthy):
                 raise Machinery(f"end-to-end canary could not be executed: {i['errors'][0]['error']}\n{i['errors'][0]['tb']}")
             v.extra["canary_e2e"] = "not executable on this tree"
             return
-    rej, _ = tlc.tv("C17", "FreshTrace", [t for t, _i in out])
+    rej, _ = tv_checked([t for t, _i in out])
     ok = "e2e-const" in rej and "e2e-cycle" in rej and "e2e-cycle-short" not in rej
     if not ok and healthy:
         raise Machinery(f"end-to-end canary failed: rejected {sorted(rej)} (constant and period-64 generators must be rejected, 10 BEE headers "
@@ -609,6 +619,8 @@ def run(tier):
         hid = f"r{i}" if (n_restarts(h) or w == "simulated") else f"f{i}"
         items.append((hid, h, ""))
         why[hid] = w
+    if os.environ.get("C17_DEBUG_LIMIT"):  # development aid: cap the number of histories
+        items = r.sample(items, min(len(items), int(os.environ["C17_DEBUG_LIMIT"])))
     nfork = sum(1 for hid, _h, _f in items if hid.startswith("f")) if FORK_OK[0] else 0
     say(f"[C17] executing {len(items)} histories: {sum(len(segments(h)) for _i, h, _f in items)} interpreters ({nfork} forked, the others exec'ed), "
         f"{sum(n_constructs(h) for _i, h, _f in items)} constructions")
@@ -691,7 +703,7 @@ def replay(path):
     t, info = execute(("replay", w["history"], w.get("fake_rng", "")))
     if t.get("failed"):
         raise Machinery(f"replay could not be executed: {info['errors'][0]['error']}")
-    rej, _ = tlc.tv("C17", "FreshTrace", [t])
+    rej, _ = tv_checked([t])
     if rej:
         m = rej["replay"][0]
         who, bad = culprits(t, m)
